@@ -699,7 +699,7 @@ func (su *statusUpdater) UpdatePolicyStatus(pol *conf_v1.Policy, state string, r
 		return nil
 	}
 
-	polCopy := polLatest.(*conf_v1.Policy)
+	polCopy := polLatest.(*conf_v1.Policy).DeepCopy()
 
 	if !hasPolicyStatusChanged(polCopy, state, reason, message) {
 		return nil
